@@ -22,7 +22,32 @@ ASSUME = [
 ]
 
 
+WS_FILE = (b'OVM ASCII\nVertices\n2\n0 0 0\n1 0 0\nEdges\n0\nFaces\n0\nPolyhedra\n0\n'
+           b'VProp char "c"\n \na\nMProp int "n"\n7\n')
+
+
+def probe_known_findings(ctx):
+    """A5 (findings/A1-char-whitespace.md): the exact file of the finding through the real reader.  Reported with its
+    own signature, so only this input is covered by the known-findings entry."""
+    from vlib import build
+    drv = build.driver("ascii_drv", flavor="asan")
+    tr = io_ascii.read_text_one(drv, WS_FILE, "poly", 0, 1, "a5")
+    txt = open(tr).read()
+    ok = "\nR ok" in txt
+    vals = [l for l in txt.splitlines() if l.startswith("p VProp char")]
+    has_n = any(l.startswith("p MProp int") for l in txt.splitlines())
+    good = ok and vals and "c32 | c97" in vals[0] and has_n
+    if not good:
+        p = ctx.write_replay("ascii-A5-char-whitespace.txt",
+                             "property C06 (OVM-ASCII): char property [' ', 'a'] followed by MProp int \"n\" = 7\n"
+                             "file (hex): %s\nobserved: %s | MProp n present: %s | result ok: %s\nrequired: c32 | c97, MProp n present\n"
+                             % (WS_FILE.hex(), vals, has_n, ok))
+        ctx.violation(p, "ASCII char property holding a blank does not round-trip", found_input=True, sig="A5:char-whitespace")
+    return {"A5_probe_reproduced": not good}
+
+
 def run(ctx):
+    probe = probe_known_findings(ctx)
     a = io_ascii.run_c06(ctx)
     b = io_ovmb.run_c06(ctx)
     cov = merge(a, b)
@@ -31,4 +56,5 @@ def run(ctx):
                           "back by the real readers in every configuration and through alternative permitted encodings; all judged "
                           "by the compiled Lean judges (asciijudge, ovmbjudge)")
     cov["samples"] = b.get("alternative_layout_samples", [])[:4]
+    cov["known_finding_probes"] = probe
     ctx.set_evidence(level="other", coverage=cov, assumptions=ASSUME)
